@@ -615,19 +615,27 @@ Fixpoint mkdirs (fuel : nat) (p : ProvModel.prov) (sd : bool) (path : ProvModel.
 Definition mkdir_synced (w : world) (e : eid) (changed : bool) (tp : str) : result (world * list call * resp) :=
   let synced := negb changed in
   en <- get_e w e ;;
-  match others e (lookup_path (w_st w) changed (StateModel.s_path (StateModel.gs en changed))),
-        others e (lookup_path (w_st w) synced (Some tp)) with
+  (* get_folder_file_conflict: live entries at the translated path that exist and are not folders *)
+  let ffc := filter (fun x => match nth_error (StateModel.ents (w_st w)) x with
+                              | Some xn => ex_is (StateModel.s_ex (StateModel.gs xn synced)) StateModel.ExExists &&
+                                           negb (is_dir (StateModel.gs xn synced))
+                              | None => false
+                              end) (others e (lookup_path (w_st w) synced (Some tp))) in
+  match others e (lookup_path (w_st w) changed (StateModel.s_path (StateModel.gs en changed))), ffc with
   | [], [] =>
     let p := spath tp in
     let '(pv, r, cs) := mkdirs (length p) (prov_of w synced) synced p in
     match r with
     | Some k =>
       let w1 := with_prov w synced pv in
-      (* already_dir = lookup_oid(synced, oid) *)
-      _ <- match StateModel.lookup_oid (w_st w1) synced (Some (kstr k)) with
-           | Some e' => if Nat.eqb e' e then ROk tt else OutOfFragment X_MKDIR_OTHER
-           | None => ROk tt
-           end ;;
+      (* already_dir = lookup_oid(synced, oid): the entry the echo of an earlier mkdirs() made for this folder is discarded *)
+      w1 <- match StateModel.lookup_oid (w_st w1) synced (Some (kstr k)) with
+            | Some e' =>
+              if Nat.eqb e' e then ROk w1
+              else (en' <- get_e w1 e' ;;
+                    if is_dir (StateModel.gs en' synced) then set_ignored w1 e' StateModel.IDiscarded else ROk w1)
+            | None => ROk w1
+            end ;;
       w2 <- plain w1 e synced (fun z => StateModel.w_spath z (Some tp)) ;;
       w3 <- plain w2 e changed (fun z => StateModel.w_spath z (StateModel.s_path (StateModel.gs en changed))) ;;
       w4 <- upd_entry w3 e synced (kstr k) (Some tp) None ;;
@@ -1081,7 +1089,7 @@ Fixpoint trace_run (w : world) (l : list action) : list sx :=
 
 (* request (0 config t0 lg0 (actions))  ->  (initial-world world-after-each-action ...)
    request (1 config (actions))         ->  in_F (domain of the configured level) of the history of the actions *)
-Definition run (x : sx) : sx :=
+Definition run_model (x : sx) : sx :=
   match x with
   | L [A 0; c; A t0; A lg0; acts] =>
     match un_config c, un_list un_action acts with
